@@ -197,6 +197,24 @@ func c01RunH1(tr *Transport, tc *c01H1Case) (wire []byte, reads []int, err error
 	return buf.Bytes(), rec, err, ""
 }
 
+// c01HeadUnambiguous: the two places the HTTP/1.1 writer does not sanitise (method, User-Agent)
+// hold no CR / LF, so the first blank line of the capture is the end of the head.
+func c01HeadUnambiguous(tc *c01H1Case) bool {
+	if strings.ContainsAny(tc.method, "\r\n") {
+		return false
+	}
+	for k, vs := range tc.header {
+		if strings.EqualFold(k, "User-Agent") {
+			for _, v := range vs {
+				if strings.ContainsAny(v, "\r\n") {
+					return false
+				}
+			}
+		}
+	}
+	return true
+}
+
 func c01H1ErrKind(err error) string {
 	s := err.Error()
 	switch {
@@ -666,6 +684,22 @@ func c01LaneH1(t *testing.T, s *c01Sess, profile string, n int) {
 		case err != nil:
 			ans = c01H1ErrKind(err)
 			s.Count(ans)
+			// a failed write leaves bytes behind (the head is flushed, an identity body is copied
+			// before its length is compared): behind the head there may be nothing but a prefix of
+			// the first Content-Length bytes of the body — never the surplus of an over-long reader
+			if ans == "err:bodylen" && tc.cl > 0 && c01HeadUnambiguous(tc) {
+				if k := bytes.Index(wire, []byte("\r\n\r\n")); k >= 0 && !bytes.Contains(bytes.ToLower(wire[:k+2]), []byte("\r\ntransfer-encoding:")) {
+					lim := int(tc.cl)
+					if lim > len(tc.body) {
+						lim = len(tc.body)
+					}
+					s.Count("bodylen-wire-checked")
+					if !bytes.HasPrefix(tc.body[:lim], wire[k+4:]) {
+						ok = false
+						human += fmt.Sprintf(" ORACLE: %d bytes behind the head of a request with Content-Length %d: not a prefix of the declared-length part of the body", len(wire)-k-4, tc.cl)
+					}
+				}
+			}
 		case len(order) > 0:
 			ans = c01ShowOrdered(wire, order)
 			s.Count("order-mode")
